@@ -58,7 +58,8 @@ def gen(r) -> Dict[str, Any]:
     jobs.sort(key=lambda j: j["at"])
     return {"max_concurrent": mc, "nsrc": nsrc, "pushes": pushes, "jobs": jobs,
             "idle": r.choice([0, 0, 1, 3]), "idle_dur": r.choice([0.01, 0.02, 0.05]),
-            "handlers_per_source": r.choice([1, 1, 2])}
+            "handlers_per_source": r.choice([1, 1, 2]),
+            "tz_minutes": r.choice([[0], [0], [0, -300, 330], [540, -480, 0, 60]])}
 
 
 class Run:
@@ -116,8 +117,16 @@ class Run:
                         run.rows.append((vt(), "job", jid, "end", vt_of(when), True))
                 return job
 
+            tzs = sc.get("tz_minutes", [0])
+
+            def in_tz(when, k):
+                # the same instant expressed in another UTC offset: aware datetimes of any zone are legal inputs
+                off = tzs[k % len(tzs)]
+                return when.astimezone(datetime.timezone(datetime.timedelta(minutes=off))) if off else when
+
             def schedule(when, dur, by, fail=False):
                 jid = len(job_info)
+                when = in_tz(when, jid)
                 job_info[jid] = {"when": vt_of(when), "sched_at": vt(), "dur": dur, "by": by}
                 d.schedule(when, mk_job(jid, when, dur, fail))
 
@@ -159,7 +168,7 @@ class Run:
                     delay = p["at"] - vt()
                     if delay > 0:
                         await asyncio.sleep(delay)
-                    when = bdt.utc_now() + datetime.timedelta(seconds=p["off"])
+                    when = in_tz(bdt.utc_now() + datetime.timedelta(seconds=p["off"]), eid + 1)
                     pushed.append({"eid": eid, "src": p["src"], "when": vt_of(when), "pushed_at": vt(), "dur": p["dur"]})
                     srcs[p["src"]].push(Ev(when, eid, p["dur"], p["sched"]))
 
